@@ -255,6 +255,15 @@ fn gates(rep: &mut Report, r: &mut Rng, n: u64) {
     };
     rep.eval();
     check_missing(rep, &idt, "new");
+    // every way of obtaining a fresh table gives untouched entries
+    let d: Box<InterruptDescriptorTable> = Box::new(Default::default());
+    check_missing(rep, &d, "Default::default");
+    if bytes_of(&d) != bytes_of(&idt) {
+        rep.violation("Default::default|differs-from-new", J::Null);
+    }
+    let c = idt.clone();
+    check_missing(rep, &c, "new().clone()");
+    rep.class("fresh-table|new,default,clone");
     let m: Entry<HandlerFunc> = Entry::missing();
     if decode(&entry_bytes(&m)).typ != 0xE || decode(&entry_bytes(&m)).present {
         rep.violation("Entry::missing|wrong", J::Null);
